@@ -378,7 +378,7 @@ def work(tasks):
 
 
 def main(run: Run):
-    maxw = 5 if run.thorough else 3
+    maxw = 6 if run.thorough else 4
     T = types(maxw)
     tasks = []
     for s in T + [("Integer",)]:
